@@ -1,6 +1,6 @@
 /-
 C14 concrete model `B`: transcription of /repo/container/{adjacencymap,csr,triplestore,digraph,segment,
-traversal}.go AS THE CODE IS (defects included). Core Lean only (the driver imports this file).
+traversal}.go AS THE CODE IS (remaining defects included). Core Lean only (the driver imports this file).
 
 Conventions
 * a roaring `Bitmap64` is a strictly ascending `List Nat` (`Add` = `sinsert`, `Or` = `sunion`,
@@ -8,8 +8,10 @@ Conventions
 * a Go `map[uint64]Bitmap` is an association list `NMap` (only looked up by key; where the code
   ranges over a map — `Normalize` — the result does not depend on the order);
 * Go slices grown with `append` are lists grown at the END (`xs ++ [x]`), so indices coincide;
-* every definition that the current code gets wrong for `DirectionBoth` (DESIGN §5 F2) takes a
-  `fixed : Bool`: `false` = the code as it is, `true` = the minimal repair (`Edge.Other`).
+* every definition that the code USED TO get wrong for `DirectionBoth` (DESIGN §5 F2, repaired in /repo by
+  789c790 `Edge.Other`) takes a `fixed : Bool`: `true` = the code as it is now (the live definitions, what the
+  driver suite `c14` runs and what `C14_full` is about), `false` = the code before the repair (kept so the
+  refutations `…_old` stay checkable and the corpus replays still show the old shape in suite `c14old`).
 -/
 namespace Dawgs.C14
 
@@ -228,15 +230,15 @@ def TS.adjacentEdgeIndices (t : TS) (n : Nat) : Dir → List Nat
   | .inn => sunion [] (mget t.endIndex n)
   | .both => sunion (sunion [] (mget t.startIndex n)) (mget t.endIndex n)
 
-/-- `Edge.Pick(direction)` as it is: everything but outbound picks `Start`. -/
+/-- `Edge.Pick(direction)` (still in the code, no longer used by the containers): everything but outbound picks `Start`. -/
 def Edge.pick (e : Edge) : Dir → Nat
   | .out => e.stop
   | _ => e.start
 
-/-- proposed repair: the endpoint opposite to `n` (`n` itself for a self loop). -/
+/-- `Edge.Other(node)`: the endpoint opposite to `n` (`n` itself for a self loop). -/
 def Edge.other (e : Edge) (n : Nat) : Nat := if e.start = n then e.stop else e.start
 
-/-- the `switch direction` inside `triplestore.adjacent`; `fixed` repairs the default branch. -/
+/-- the `switch direction` inside `triplestore.adjacent`; `fixed = false` is the default branch before 789c790. -/
 def tsAddEnds (fixed : Bool) (n : Nat) (d : Dir) (acc : List Nat) (e : Edge) : List Nat :=
   match d with
   | .out => sinsert e.stop acc
